@@ -36,6 +36,10 @@ pub struct Report {
     pub errors: Vec<String>,
 }
 
+pub const ALL_PROPS: [&str; 20] = [
+    "C01", "C02", "C03", "C04", "C05", "C06", "C07", "C08", "C09", "C10", "C11", "C12", "C13", "C14", "C15", "C16", "C17", "C18", "C19", "C20",
+];
+
 pub const MAX_VIOLATIONS_PER_INSTANCE: usize = 5;
 pub const MAX_SAMPLES_PER_INSTANCE: usize = 3;
 
@@ -99,6 +103,46 @@ impl Report {
         } else {
             self.extra.push((k.to_string(), v));
         }
+    }
+
+    /// Rebuild a report a child process printed.
+    pub fn from_json(instance: &str, j: &Json) -> Report {
+        let mut r = Report::new(instance);
+        let n = |k: &str| j.get(k).and_then(|v| v.as_i128()).unwrap_or(0) as u64;
+        r.evaluations = n("evaluations");
+        r.states = n("states");
+        r.transitions = n("transitions");
+        r.traces = n("traces");
+        for i in 0..n("distinct") {
+            r.distinct.insert(i);
+        }
+        r.exhaustive = j.get("exhaustive").and_then(|b| b.as_bool()).unwrap_or(true);
+        for f in j.get("flags").and_then(|a| a.as_arr()).unwrap_or(&[]) {
+            if let Some(s) = f.as_str() {
+                r.flags.insert(s.to_string());
+            }
+        }
+        r.samples = j.get("samples").and_then(|a| a.as_arr()).map(|a| a.to_vec()).unwrap_or_default();
+        for e in j.get("errors").and_then(|a| a.as_arr()).unwrap_or(&[]) {
+            r.errors.push(e.as_str().unwrap_or("").to_string());
+        }
+        for v in j.get("violations").and_then(|a| a.as_arr()).unwrap_or(&[]) {
+            let props: Vec<&'static str> = v
+                .get("props")
+                .and_then(|a| a.as_arr())
+                .unwrap_or(&[])
+                .iter()
+                .filter_map(|p| p.as_str())
+                .filter_map(|p| ALL_PROPS.iter().find(|q| **q == p).copied())
+                .collect();
+            r.violations.push(Violation {
+                props,
+                sig: v.str_at("sig"),
+                what: v.str_at("what"),
+                replay: v.get("replay").cloned().unwrap_or(Json::Null),
+            });
+        }
+        r
     }
 
     pub fn to_json(&self) -> Json {
